@@ -33,6 +33,7 @@ func NewBroadcaster[T any]() *Broadcaster[T] {
 func (b *Broadcaster[T]) Publish(channel string, v T) {
 	b.lock.Lock()
 	if b.closed {
+		verifTrace("pub.refused", channel)
 		b.lock.Unlock()
 
 		return
@@ -40,17 +41,22 @@ func (b *Broadcaster[T]) Publish(channel string, v T) {
 
 	c, ok := b.channels[channel]
 	if !ok {
+		verifTrace("pub.miss", channel)
 		b.lock.Unlock()
 
 		return
 	}
+	verifTrace("pub.hit", channel)
 	b.lock.Unlock()
 
+	verifYield("pub.select", channel)
 	select {
 	case c.channel <- v:
+		verifYield("pub.sent", channel)
 		return
 
 	case <-c.ctx.Done():
+		verifYield("pub.ctx", channel)
 		return
 	}
 }
@@ -58,6 +64,7 @@ func (b *Broadcaster[T]) Publish(channel string, v T) {
 func (b *Broadcaster[T]) Receive(channel string, ctx context.Context) (func() (*T, error), error) {
 	b.lock.Lock()
 	if b.closed {
+		verifTrace("rcv.refused", channel)
 		b.lock.Unlock()
 
 		return nil, ErrClosed
@@ -73,24 +80,31 @@ func (b *Broadcaster[T]) Receive(channel string, ctx context.Context) (func() (*
 			cancel: cancel,
 		}
 		b.channels[channel] = c
+		verifTrace("rcv.created", channel)
 	}
+	verifTrace("rcv.registered", channel)
 	b.lock.Unlock()
 
 	return func() (*T, error) {
+		verifYield("rcvf.select", channel)
 		select {
 		case v, ok := <-c.channel:
 			if !ok {
+				verifYield("rcvf.closed", channel)
 				return nil, ErrClosed
 			}
+			verifYield("rcvf.value", channel)
 			return &v, nil
 
 		case <-ctx.Done():
+			verifYield("rcvf.ctx", channel)
 			return nil, ctx.Err()
 		}
 	}, nil
 }
 
 func (b *Broadcaster[T]) Free(channel string, err error) {
+	verifYield("free.enter", channel)
 	b.lock.Lock()
 	c, ok := b.channels[channel]
 	if ok {
@@ -98,10 +112,12 @@ func (b *Broadcaster[T]) Free(channel string, err error) {
 		close(c.channel)
 	}
 	delete(b.channels, channel)
+	verifTrace("free.done", channel)
 	b.lock.Unlock()
 }
 
 func (b *Broadcaster[T]) Close(err error) {
+	verifYield("close.enter", "")
 	b.lock.Lock()
 	for _, c := range b.channels {
 		c.cancel(err)
@@ -109,5 +125,6 @@ func (b *Broadcaster[T]) Close(err error) {
 	}
 	b.channels = map[string]channelWithContext[T]{}
 	b.closed = true
+	verifTrace("close.done", "")
 	b.lock.Unlock()
 }
